@@ -106,6 +106,17 @@ class Check:
         ev = dict(property_id=self.pid, tier=self.tier, seed=seed(), level=self.level, coverage=cov,
                   assumptions=list(assumptions) + self.assumptions, wall_s=round(wall, 2), violations=len(self.violations))
         os.makedirs(os.path.join(VERIF, "evidence"), exist_ok=True)
+        ev = json.loads(json.dumps(ev, default=str))
+        try:
+            import jsonschema
+            jsonschema.validate(ev, json.load(open("/root/.vp/EVIDENCE.schema.json")))
+        except ImportError:
+            pass
+        except FileNotFoundError:
+            pass
+        except Exception as ex:  # an evidence file that does not validate is no evidence: make it loud
+            self.inconclusive("evidence does not validate against the schema: %s" % str(ex).split("\n")[0])
+            ev["coverage"]["inconclusive"] = self.inconcl
         json.dump(ev, open(os.path.join(VERIF, "evidence", self.pid + ".json"), "w"), indent=1, default=str)
         status = 1 if self.violations else (2 if self.inconcl else 0)
         print("RESULT property=%s tier=%s exit=%d queries=%d (unsat %d, sat %d, undecided %d) known=%d violations=%d wall=%.1fs" % (
